@@ -2081,3 +2081,69 @@ def desugar_dict_dispatch(trees):
                 rewrite(fn.body)
         ast.fix_missing_locations(tree)
     return n
+
+
+
+def renest_callback_methods(trees, ref):
+    """a *new* private method that is referenced exactly once, as a Deferred callback with extra arguments taken from plain locals
+    (`d.addCallback(self._f, stream)`, def _f(self, result, stream)), is the closure it was before it was moved: it is seen as
+    `def f(result): ...` nested in the registering method (parameters standing for the locals, which must not be re-bound after
+    the registration), registered as `d.addCallback(f)`."""
+    n = 0
+    for mname, tree in trees.items():
+        rm = (ref or {}).get(mname, {}).get('classes', {})
+        for cls in [c for c in tree.body if isinstance(c, ast.ClassDef)]:
+            known = set(rm.get(cls.name, {}).get('methods', {}))
+            for fn in list(cls.body):
+                if not isinstance(fn, ast.FunctionDef) or not fn.name.startswith('_') or fn.name.startswith('__') or fn.name in known or fn.decorator_list:
+                    continue
+                a = fn.args
+                if a.vararg or a.kwarg or a.kwonlyargs or a.defaults or len(a.args) < 3 or a.args[0].arg != 'self':
+                    continue
+                refs = [x for x in ast.walk(tree) if isinstance(x, ast.Attribute) and x.attr == fn.name]
+                if len(refs) != 1 or not (isinstance(refs[0].value, ast.Name) and refs[0].value.id == 'self'):
+                    continue
+                site = None
+                for host in [f for f in cls.body if isinstance(f, ast.FunctionDef) and f is not fn]:
+                    for st in host.body:
+                        if isinstance(st, ast.Expr) and isinstance(st.value, ast.Call) and isinstance(st.value.func, ast.Attribute) and st.value.func.attr in ('addCallback', 'addBoth') \
+                                and st.value.args and st.value.args[0] is refs[0] and not st.value.keywords:
+                            site = (host, st)
+                if site is None:
+                    continue
+                host, st = site
+                extra = st.value.args[1:]
+                params = [x.arg for x in a.args[2:]]
+                if len(extra) != len(params) or not all(isinstance(e, ast.Name) for e in extra):
+                    continue
+                idx = host.body.index(st)
+                later_stores = set(y.id for later in host.body[idx + 1:] for y in ast.walk(later) if isinstance(y, ast.Name) and isinstance(y.ctx, ast.Store))
+                if any(e.id in later_stores for e in extra):
+                    continue
+                body_names = set(y.id for y in ast.walk(fn) if isinstance(y, ast.Name))
+                host_locals = set(y.id for y in ast.walk(host) if isinstance(y, ast.Name) and isinstance(y.ctx, ast.Store)) | set(x.arg for x in host.args.args)
+                fn_locals = set(y.id for b in fn.body for y in ast.walk(b) if isinstance(y, ast.Name) and isinstance(y.ctx, ast.Store))
+                mapping = dict((p_, e.id) for p_, e in zip(params, extra))
+                # the moved body must not bind names that mean something else in the host
+                if (fn_locals - set(params)) & (host_locals - set(mapping.values())):
+                    continue
+                if any(isinstance(y, ast.Name) and isinstance(y.ctx, ast.Store) and y.id in params for b in fn.body for y in ast.walk(b)):
+                    continue
+                new_name = fn.name.lstrip('_')
+                if new_name in host_locals or new_name in body_names:
+                    continue
+                inner = ast.FunctionDef(name=new_name, args=ast.arguments(posonlyargs=[], args=[a.args[1]], vararg=None, kwonlyargs=[], kw_defaults=[], kwarg=None, defaults=[]),
+                                        body=[_subst_names(b, dict((p_, ast.Name(id=v_, ctx=ast.Load())) for p_, v_ in mapping.items())) for b in fn.body],
+                                        decorator_list=[], returns=None, type_comment=None)
+                try:
+                    inner.type_params = []
+                except Exception:
+                    pass
+                ast.copy_location(inner, st)
+                st.value.args = [ast.copy_location(ast.Name(id=new_name, ctx=ast.Load()), refs[0])]
+                host.body.insert(idx, inner)
+                cls.body.remove(fn)
+                ast.fix_missing_locations(host)
+                n += 1
+        ast.fix_missing_locations(tree)
+    return n
